@@ -86,64 +86,108 @@ def worker_task(task):
     except Exception as e:
         return {'status': 'error', 'error': '%s: %s\n%s' % (type(e).__name__, e, traceback.format_exc()[-3000:])}
 
-def _init_worker():
+def _worker_main(conn):
     signal.signal(signal.SIGINT, signal.SIG_IGN)
-    try: resource.setrlimit(resource.RLIMIT_AS, (6 << 30, 6 << 30))
+    try: resource.setrlimit(resource.RLIMIT_AS, (12 << 30, 12 << 30))
     except Exception: pass
+    while True:
+        try: task = conn.recv()
+        except (EOFError, OSError): return
+        if task is None: return
+        try: res = worker_task(task)
+        except BaseException as e: res = {'status': 'error', 'error': 'worker: %s: %s' % (type(e).__name__, e)}
+        try: conn.send(res)
+        except Exception: return
 
 class Scheduler:
-    """runs engine-B jobs on a process pool; a job is a tree of decision prefixes explored in time slices"""
+    """runs engine-B jobs on worker processes; a job is a tree of decision prefixes explored in time slices.
+    Own process management (Process + Pipe): a worker that dies or overruns is killed and reported, never waited for."""
     def __init__(s, nproc):
-        s.nproc = nproc; s.pool = None
+        s.nproc = nproc; s.workers = []
     def start(s):
         ctx = multiprocessing.get_context('fork')
-        s.pool = ctx.Pool(s.nproc, initializer=_init_worker)
+        for _ in range(s.nproc):
+            a, b = ctx.Pipe()
+            p = ctx.Process(target=_worker_main, args=(b,), daemon=True); p.start(); b.close()
+            s.workers.append({'p': p, 'c': a, 'busy': None, 't0': 0.0})
     def stop(s):
-        if s.pool: s.pool.terminate(); s.pool.join(); s.pool = None
+        for w in s.workers:
+            try: w['p'].kill()
+            except Exception: pass
+        for w in s.workers:
+            try: w['p'].join(2)
+            except Exception: pass
+            try: w['c'].close()
+            except Exception: pass
+        s.workers = []
     def run_jobs(s, jobs, deadline):
-        """jobs: list of dict(ll, entry, budget_s, samples, max_insns). returns list of aggregated results"""
+        """jobs: list of dict(ll, entry, samples, max_insns). returns list of aggregated results"""
+        from multiprocessing.connection import wait
         res = []
         for j in jobs:
             res.append({'status': 'done', 'paths': 0, 'pruned': 0, 'violations': [], 'nviol': 0, 'viol_count': collections.Counter(), 'samples': [], 'reached': collections.Counter(),
                         'stats': collections.Counter(), 'incomplete': [], 'sat': 0, 'unsat': 0, 'solver_s': 0.0, 'cpu_s': 0.0, 'called': set(), 'tasks': 0, 'error': None,
                         't0': time.time(), 'wall': None})
-        queue = collections.deque(); inflight = {}
+        queue = collections.deque()
         for i, j in enumerate(jobs): queue.append((i, [], 2.0))
-        nid = 0
         def submit():
-            nonlocal nid
-            while queue and len(inflight) < s.nproc:
+            for w in s.workers:
+                if w['busy'] is not None or not queue: continue
                 i, prefix, sl = queue.popleft(); j = jobs[i]
                 if res[i]['status'] in ('error', 'inconclusive'): continue
                 quota = max(0, j.get('samples', 8) - len(res[i]['samples']))
-                ar = s.pool.apply_async(worker_task, ((j['ll'], j['entry'], prefix, sl, quota, j.get('max_insns', 3_000_000)),))
-                inflight[nid] = (i, ar); nid += 1
+                try: w['c'].send((j['ll'], j['entry'], prefix, sl, quota, j.get('max_insns', 3_000_000)))
+                except Exception: continue
+                w['busy'] = (i, sl); w['t0'] = time.time()
+        def absorb(i, r):
+            R = res[i]; R['tasks'] += 1
+            if r['status'] in ('error', 'inconclusive'):
+                R['status'] = r['status']; R['error'] = r['error']; return
+            R['paths'] += r['paths']; R['pruned'] += r['pruned']; R['nviol'] += r['nviol']; R['incomplete'] += r['incomplete'][:2]
+            for k2, v in r['viol_count'].items(): R['viol_count'][k2] += v
+            for v in r['violations']:
+                if sum(1 for x in R['violations'] if x.get('key') == v.get('key')) < 2 and len(R['violations']) < 12: R['violations'].append(v)
+            R['samples'] += r['samples'][:max(0, jobs[i].get('samples', 8) - len(R['samples']))]
+            R['reached'].update(r['reached']); R['stats'].update(r['stats'])
+            R['sat'] += r['sat']; R['unsat'] += r['unsat']; R['solver_s'] += r['solver_s']; R['cpu_s'] += r['wall']; R['called'].update(r['called'])
+            nleft = len(r['left'])
+            for p in r['left']: queue.append((i, p, 8.0 if nleft < 4 * s.nproc else 20.0))
         submit()
-        while inflight:
-            done = [k for k, (i, ar) in inflight.items() if ar.ready()]
-            if not done:
-                time.sleep(0.02)
-                if time.time() > deadline:
-                    for k, (i, ar) in inflight.items(): res[i]['status'] = 'timeout'
-                    for (i, p, sl) in queue: res[i]['status'] = 'timeout'
-                    s.stop(); s.start(); break
-                continue
-            for k in done:
-                i, ar = inflight.pop(k); r = ar.get(); R = res[i]; R['tasks'] += 1
-                if r['status'] in ('error', 'inconclusive'):
-                    R['status'] = r['status']; R['error'] = r['error']; continue
-                R['paths'] += r['paths']; R['pruned'] += r['pruned']; R['nviol'] += r['nviol']; R['incomplete'] += r['incomplete'][:2]
-                for k2, v in r['viol_count'].items(): R['viol_count'][k2] += v
-                for v in r['violations']:
-                    if sum(1 for x in R['violations'] if x.get('key') == v.get('key')) < 2 and len(R['violations']) < 12: R['violations'].append(v)
-                R['samples'] += r['samples'][:max(0, jobs[i].get('samples', 8) - len(R['samples']))]
-                R['reached'].update(r['reached']); R['stats'].update(r['stats'])
-                R['sat'] += r['sat']; R['unsat'] += r['unsat']; R['solver_s'] += r['solver_s']; R['cpu_s'] += r['wall']; R['called'].update(r['called'])
-                nleft = len(r['left'])
-                for p in r['left']: queue.append((i, p, 8.0 if nleft < 4 * s.nproc else 20.0))
-                if not any(ii == i for (ii, _, _) in queue) and not any(ii == i for (ii, _) in inflight.values()):
-                    R['wall'] = time.time() - R['t0']
+        while any(w['busy'] is not None for w in s.workers) or queue:
+            now = time.time()
+            if now > deadline:
+                for w in s.workers:
+                    if w['busy'] is not None: res[w['busy'][0]]['status'] = 'timeout'
+                for (i, p, sl) in queue: res[i]['status'] = 'timeout'
+                s.stop(); s.start(); break
+            busy = [w for w in s.workers if w['busy'] is not None]
+            ready = wait([w['c'] for w in busy], timeout=0.5) if busy else []
+            for w in busy:
+                if w['c'] in ready:
+                    i, sl = w['busy']; w['busy'] = None
+                    try: r = w['c'].recv()
+                    except (EOFError, OSError): r = {'status': 'error', 'error': 'worker process died (exit code %s)' % w['p'].exitcode}
+                    absorb(i, r)
+                elif not w['p'].is_alive():
+                    i, sl = w['busy']; w['busy'] = None; absorb(i, {'status': 'error', 'error': 'worker process died (exit code %s)' % w['p'].exitcode})
+                elif now - w['t0'] > w['busy'][1] + 240:
+                    # a slice overran by minutes: one path does not terminate in reasonable time
+                    i, sl = w['busy']; w['busy'] = None
+                    try: w['p'].kill()
+                    except Exception: pass
+                    absorb(i, {'status': 'inconclusive', 'error': 'a worker overran its time slice by 240 s (one path too long)'})
+            # replace dead workers
+            for k, w in enumerate(s.workers):
+                if not w['p'].is_alive() and w['busy'] is None:
+                    ctx = multiprocessing.get_context('fork'); a, b = ctx.Pipe()
+                    p = ctx.Process(target=_worker_main, args=(b,), daemon=True); p.start(); b.close()
+                    try: w['c'].close()
+                    except Exception: pass
+                    s.workers[k] = {'p': p, 'c': a, 'busy': None, 't0': 0.0}
             submit()
+            for i, R in enumerate(res):
+                if R['wall'] is None and not any(ii == i for (ii, _, _) in queue) and not any(w['busy'] is not None and w['busy'][0] == i for w in s.workers):
+                    R['wall'] = time.time() - R['t0']
         for R in res:
             if R['wall'] is None: R['wall'] = time.time() - R['t0']
         return res
